@@ -43,7 +43,8 @@ RULE = ("configuration product enumerated completely: NAT kind of requester A x 
 ASSUMPTIONS = [
     "the NAT model of pv.simnet.NatBox: endpoint-independent mapping, cone filtering (full / address-restricted / "
     "port-restricted), direct delivery between hosts of one box over private addresses, private addresses unroutable "
-    "from outside, no hair-pinning; symmetric NATs and multi-level NATs are outside the statement",
+    "from outside, no hair-pinning; symmetric NATs and multi-level NATs are outside the statement; the network outside the "
+    "boxes is numbered publicly or (outer 1/2) from 10/8 resp. 172.16/12 - still one NAT level per host",
     "the same-host branch (address_is_lan, which inspects the real machine's interfaces) is not exercised: LAN address "
     "providers are emptied by the virtual loop",
     "no datagram loss, duplication or reordering beyond the drawn delivery order; no peer churn; A's walks are issued "
@@ -192,19 +193,23 @@ class Scenario:
             return n
 
         nat_a, nat_b, place = case["natA"], case["natB"], case["place"]
+        # outer: how the network outside the NAT boxes is numbered. 0: public addresses; 1 / 2: the outside addresses of the
+        # boxes lie in 10/8 resp. 172.16/12 (an internetwork numbered from private space; the boxes are still one level)
+        ext_a, ext_b = {0: ("2.0.0.1", "3.0.0.1"), 1: ("10.64.0.1", "10.65.0.1"),
+                        2: ("172.20.0.1", "172.21.0.1")}[case.get("outer", 0)]
         self.I = mk(0, "I", I_ADDR, I_ADDR, None)
-        self.A = mk(1, "A", ("2.0.0.1", 6001), ("192.168.1.10", 6001), None if nat_a == "none" else "A", "2.0.0.1",
+        self.A = mk(1, "A", ("2.0.0.1", 6001), ("192.168.1.10", 6001), None if nat_a == "none" else "A", ext_a,
                     nat_a)
         if place == "same":
             if nat_a == "none" or nat_b != nat_a:
                 raise HarnessError(f"bad configuration {case}")
-            self.B = mk(2, "B", ZERO, ("192.168.1.20", 6002), "A", "2.0.0.1", nat_a)
+            self.B = mk(2, "B", ZERO, ("192.168.1.20", 6002), "A", ext_a, nat_a)
             b_box = "A"
         else:
             b_box = None if nat_b == "none" else "B"
             # alike: both home networks are numbered identically (same private address and port behind each router)
             b_priv = ("192.168.1.10", 6001) if case.get("alike") and nat_a != "none" else ("192.168.2.20", 6002)
-            self.B = mk(2, "B", ("3.0.0.1", 6002), b_priv, b_box, "3.0.0.1", nat_b)
+            self.B = mk(2, "B", ("3.0.0.1", 6002), b_priv, b_box, ext_b, nat_b)
         a_box = None if nat_a == "none" else "A"
         self.fillers = []
         for j, (where, new) in enumerate(case["fillers"]):
@@ -374,7 +379,8 @@ class Scenario:
                 self.I.network.add_verified_peer(Peer(n.my_peer.public_key.key_to_bin(),
                                                       UDPv6Address("2001:db8::%x" % (j + 1), 7000 + j)))
             self.hist.append("dual_stack_candidates:%d" % dual)
-            if tuple(n.overlay.my_estimated_wan) != tuple(self.pub(n)):
+            # (an outside address from private space is never taken for the own WAN address: nothing to learn then)
+            if not self.case.get("outer") and tuple(n.overlay.my_estimated_wan) != tuple(self.pub(n)):
                 raise HarnessError(f"{n.name} did not learn its WAN address: {n.overlay.my_estimated_wan} vs {self.pub(n)}")
 
     def round(self, rno: int) -> dict:
@@ -651,7 +657,7 @@ def base_case(cfg: dict, idx: int) -> dict:
             "b_new": cfg["b_new"], "fillers": [["pub", 0]] * (cfg["k"] - 1), "rseed": idx, "rounds": 1,
             "picks": [], "early": 0, "order": 0, "alike": (idx // 5) % 2, "disc": (idx // 10) % 2,
             "pool": (idx // 20) % 2, "walker": (idx // 2) % 3,
-            "dual": (idx // 3) % 3, "lose_first": (idx // 4) % 2}
+            "dual": (idx // 3) % 3, "lose_first": (idx // 4) % 2, "outer": (idx // 7) % 3}
 
 
 def _strategy(cfg: dict):
@@ -673,6 +679,7 @@ def _strategy(cfg: dict):
         "walker": st.sampled_from([0, 0, 1, 2, 2]),
         "dual": st.sampled_from([0, 0, 1, 1, 2]),
         "lose_first": st.sampled_from([0, 0, 1]),
+        "outer": st.sampled_from([0, 0, 0, 1, 2]),
     })
 
 
